@@ -53,6 +53,11 @@ FUNCS = [
     ("src/group4.c", "rdsparser_group4a_get_time_offset", "c_get_offset"),
     ("src/string.c", "rdsparser_string_calculate_error", "c_calc_error"),
     ("src/ct.c", "rdsparser_ct_init", "c_ct_init"),
+    ("src/ct.c", "rdsparser_ct_get_year", "c_ct_get_year"),
+    ("src/ct.c", "rdsparser_ct_get_month", "c_ct_get_month"),
+    ("src/ct.c", "rdsparser_ct_get_day", "c_ct_get_day"),
+    ("src/ct.c", "rdsparser_ct_get_hour", "c_ct_get_hour"),
+    ("src/ct.c", "rdsparser_ct_get_minute", "c_ct_get_minute"),
     ("src/ct.c", "rdsparser_ct_get_offset", "c_ct_get_offset"),
 ]
 
@@ -111,7 +116,9 @@ def lit(v):
 
 # ---------------------------------------------------------------- expressions
 class Ctx:
-    def __init__(self, enums, data_param, struct_param):
+    def __init__(self, enums, data_param, struct_param, funcs=None, depth=0):
+        self.funcs = funcs or {}
+        self.depth = depth
         self.enums = enums
         self.data_param = data_param
         self.struct_param = struct_param
@@ -297,7 +304,73 @@ def expr(node, ctx):
     if k == "ConditionalOperator":
         c, a, b = node["inner"]
         return "(if %s then %s else %s)" % (cond(c, ctx), expr(a, ctx), expr(b, ctx))
+    if k == "CallExpr":
+        r = call(node, ctx)
+        if r is None:
+            raise Unsupported("value of a void call")
+        return r
     raise Unsupported("expression %s" % k)
+
+
+def call(node, ctx):
+    """inlines a call to a function defined in the same translation unit; returns the Coq name
+       bound to its result (None for void functions)"""
+    callee = node["inner"][0]
+    while callee["kind"] in ("ImplicitCastExpr", "ParenExpr"):
+        callee = callee["inner"][0]
+    if callee["kind"] != "DeclRefExpr" or callee["referencedDecl"]["name"] not in ctx.funcs:
+        raise Unsupported("call of a function that is not defined in this file")
+    if ctx.depth > 8:
+        raise Unsupported("call depth")
+    fn = ctx.funcs[callee["referencedDecl"]["name"]]
+    params = [c for c in fn.get("inner", []) if c.get("kind") == "ParmVarDecl"]
+    body = [c for c in fn["inner"] if c.get("kind") == "CompoundStmt"][0]
+    args = node["inner"][1:]
+    if len(args) != len(params):
+        raise Unsupported("argument count")
+    sub = Ctx(ctx.enums, None, None, ctx.funcs, ctx.depth + 1)
+    sub.count = ctx.count          # shared: names stay unique
+    sub.lines = ctx.lines
+    sub.fields = ctx.fields
+    for p, a in zip(params, args):
+        q = p["type"].get("desugaredQualType", p["type"]["qualType"])
+        if "*" in q:
+            b = a
+            while b["kind"] in ("ImplicitCastExpr", "ParenExpr"):
+                b = b["inner"][0]
+            if b["kind"] == "DeclRefExpr" and b["referencedDecl"]["name"] == ctx.data_param:
+                sub.data_param = p["name"]
+            elif b["kind"] == "DeclRefExpr" and b["referencedDecl"]["name"] == ctx.struct_param:
+                sub.struct_param = p["name"]
+            else:
+                raise Unsupported("pointer argument")
+        else:
+            v = ctx.fresh(p["name"])
+            ctx.lines.append("let %s := %s in" % (v, expr(a, ctx)))
+            sub.env[p["name"]] = v
+    inner = body.get("inner", [])
+    ret_ty = fn["type"]["qualType"].split("(")[0].strip()
+    if ret_ty == "void":
+        if may_return(inner):
+            raise Unsupported("early return in an inlined void function")
+        straight(inner, sub)
+        ctx.fields = sub.fields
+        return None
+    if inner and inner[-1]["kind"] == "ReturnStmt" and not may_return(inner[:-1]):
+        straight(inner[:-1], sub)
+        ctx.fields = sub.fields
+        v = ctx.fresh("r")
+        ctx.lines.append("let %s := %s in" % (v, expr(inner[-1]["inner"][0], sub)))
+        return v
+    # several returns: a self-contained term (such a helper must not write through pointers)
+    saved_lines = ctx.lines
+    sub.lines = []
+    sub.fields = {}
+    term = stmts(inner, sub, [])
+    ctx.lines = saved_lines
+    v = ctx.fresh("r")
+    ctx.lines.append("let %s := %s in" % (v, term))
+    return v
 
 
 # ---------------------------------------------------------------- statements
@@ -334,6 +407,11 @@ def assign(node, ctx):
         val = binop("+" if node["opcode"] == "++" else "-", comp, cur, "1", {"kind": "IntegerLiteral", "value": "1"}, ctx)
         ctx.bind(name, wrap(lty, val, comp), field=(kind == "field"))
         return
+    if k == "CallExpr":
+        call(node, ctx)
+        return
+    if k in ("ImplicitCastExpr", "CStyleCastExpr") and node.get("castKind") == "ToVoid":
+        return assign(node["inner"][0], ctx)
     raise Unsupported("statement expression %s" % k)
 
 
@@ -474,6 +552,9 @@ def load_ast(repo, src):
     return json.loads(p.stdout.decode())
 
 
+RECORDS = {}
+
+
 def collect(tu):
     enums, funcs = {}, {}
 
@@ -492,6 +573,8 @@ def collect(tu):
                         v = int(x["value"])
                 enums[c["name"]] = v
                 nxt = v + 1
+        if k == "RecordDecl" and n.get("name") and n.get("completeDefinition"):
+            RECORDS[n["name"]] = [c["name"] for c in n.get("inner", []) if c.get("kind") == "FieldDecl"]
         if k == "FunctionDecl" and any(c.get("kind") == "CompoundStmt" for c in n.get("inner", [])):
             funcs[n["name"]] = n
         for c in n.get("inner", []):
@@ -501,7 +584,7 @@ def collect(tu):
     return enums, funcs
 
 
-def translate(fn, enums, coqname):
+def translate(fn, enums, coqname, funcs=None):
     params = [c for c in fn.get("inner", []) if c.get("kind") == "ParmVarDecl"]
     body = [c for c in fn["inner"] if c.get("kind") == "CompoundStmt"][0]
     data_param = struct_param = None
@@ -519,27 +602,38 @@ def translate(fn, enums, coqname):
         else:
             args.append(p["name"])
             ranges.append((p["name"], ctype(p)))
-    ctx = Ctx(enums, data_param, struct_param)
+    ctx = Ctx(enums, data_param, struct_param, funcs)
     for p in params:
         if "*" not in p["type"].get("desugaredQualType", p["type"]["qualType"]):
             ctx.env[p["name"]] = p["name"]
             ctx.count[p["name"]] = 1        # never shadow a parameter: new versions are name_1, name_2, ...
     fields = []
     if struct_param:
-        # the fields written, in order of first assignment
-        def find(n):
-            if n.get("kind") == "MemberExpr" and n["name"] not in fields:
-                fields.append(n["name"])
-            for c in n.get("inner", []):
-                if isinstance(c, dict):
-                    find(c)
-        find(body)
-        if coqname == "c_ct_get_offset":
-            # a getter: its struct is an INPUT; the single field becomes a parameter
-            ctx.fields = {f: f for f in fields}
-            args = fields + args
+        sp = [p for p in params if p["name"] == struct_param][0]
+        q = sp["type"].get("desugaredQualType", sp["type"]["qualType"])
+        rec = q.replace("const", "").replace("struct", "").replace("*", "").strip()
+        if rec not in RECORDS and rec.endswith("_t") and rec[:-2] in RECORDS:
+            rec = rec[:-2]
+        if rec not in RECORDS:
+            raise Unsupported("unknown struct %s" % rec)
+        if "const" in q:
+            # the struct is an INPUT: the fields the function reads become parameters
+            used = []
+
+            def find(n):
+                if n.get("kind") == "MemberExpr" and n["name"] not in used:
+                    used.append(n["name"])
+                for c in n.get("inner", []):
+                    if isinstance(c, dict):
+                        find(c)
+            find(body)
+            ctx.fields = {f: f for f in used}
+            for f in used:
+                ctx.count["f_" + f] = 1
+            args = used + args
             term = stmts(body.get("inner", []), ctx, [])
             return args, [], term, ranges
+        fields = list(RECORDS[rec])     # an OUTPUT: result = (return value, fields in declaration order)
     term = stmts(body.get("inner", []), ctx, fields)
     return args, fields, term, ranges
 
@@ -567,9 +661,15 @@ def main():
             enums, funcs = cache[src]
             if cname not in funcs:
                 raise Unsupported("function %s not found in %s" % (cname, src))
-            args, fields, term, ranges = translate(funcs[cname], enums, coqname)
+            args, fields, term, ranges = translate(funcs[cname], enums, coqname, funcs)
             text += "(* %s: %s%s *)\n" % (src, cname, ("; result, then fields " + ", ".join(fields)) if fields else "")
-            text += "Definition %s (%s : Z) :=\n  %s.\n\n" % (coqname, " ".join(args), term)
+            text += "Definition %s (%s : Z) :=\n  %s.\n" % (coqname, " ".join(args), term)
+            if fields:
+                pat = "(" + ", ".join(["ret"] + ["x_" + f for f in fields]) + ")"
+                for comp in ["ret"] + ["x_" + f for f in fields]:
+                    text += "Definition %s__%s (%s : Z) : Z := let '%s := %s %s in %s.\n" % (
+                        coqname, comp.replace("x_", ""), " ".join(args), pat, coqname, " ".join(args), comp)
+            text += "\n"
         except Unsupported as ex:
             errors.append("%s (%s): %s" % (cname, src, ex))
             text += "(* %s: NOT TRANSLATED: %s *)\n\n" % (cname, ex)
